@@ -3,12 +3,16 @@ import hdrobs
 META = {'bounds': 'header blocks of <= 3 lines generated from templates with symbolic spelling', 'outside': 'values longer than the templates; IPv6 literals (inet_pton not modelled); segmentation independence follows from C03 (same lines reach the processors)',
         'assumptions': ['hooks stubbed (return OK)', 'cookie/auth parsing off'], 'trusted_base': ['generators in harness/hdr/smuggle.c']}
 def obligations(tier):
-    obs = [hdrobs.smuggle(s) for s in (3, 4)] + [hdrobs.smuggle(5, urih=u, hh=h, tier=('quick' if (u, h) in ((0, 1), (1, 1), (1, 2), (1, 0), (0, 0)) else 'thorough')) for u in (0, 1, 2) for h in (0, 1, 2)] + [hdrobs.smuggle(6, kfs=['C11-folded-cl-not-flagged'], kf_only=True)]
+    T = 'thorough'
+    Q = lambda big: 'quick' if not big else T
+    obs = [hdrobs.smuggle(3), hdrobs.smuggle(4, tier=T)]
+    obs += [hdrobs.smuggle(5, urih=u, hh=h, tier=('quick' if (u, h) in ((1, 2), (1, 0)) else T)) for u in (0, 1, 2) for h in (0, 1, 2)]
+    obs += [hdrobs.smuggle(6, kfs=['C11-folded-cl-not-flagged'], kf_only=True)]
     for o in (0, 1):
-        obs.append(hdrobs.smuggle(1, 0, 0, o)); obs.append(hdrobs.smuggle(1, 1, 1, o))
-        if tier == 'thorough': obs += [hdrobs.smuggle(1, 1, 0, o, tier='thorough'), hdrobs.smuggle(1, 1, 2, o, tier='thorough')]
-    obs.append(hdrobs.smuggle(2, 0, 0)); obs.append(hdrobs.smuggle(2, 1, 1))
-    if tier == 'thorough': obs += [hdrobs.smuggle(2, 1, 0, tier='thorough'), hdrobs.smuggle(2, 1, 2, tier='thorough')]
+        obs.append(hdrobs.smuggle(1, 0, 0, o)); obs.append(hdrobs.smuggle(1, 1, 1, o, tier=T))
+        if tier == T: obs += [hdrobs.smuggle(1, 1, 0, o, tier=T), hdrobs.smuggle(1, 1, 2, o, tier=T)]
+    obs.append(hdrobs.smuggle(2, 0, 0)); obs.append(hdrobs.smuggle(2, 1, 1, tier=T))
+    if tier == T: obs += [hdrobs.smuggle(2, 1, 0, tier=T), hdrobs.smuggle(2, 1, 2, tier=T)]
     # invalid-host indicator for out-of-range ports (Host header uses htp_parse_hostport), duplicate detection is case-insensitive (real table),
     # and the indicators do not depend on segmentation (merge lemma on the folded-header shape)
     import streamobs as so
